@@ -140,7 +140,17 @@ fn call_scoped_variable(rng: &mut Rng, out: &mut Out) {
     let name = *rng.pick(&["zq_name", "lit", "x-y", "nœud", "définition_1"]);
     // or: the scope is an optional / list-element capture that is present (written without its
     // quantifier, as everywhere in a block)
-    let (written, text, source) = match rng.below(3) {
+    let (written, text, source) = match rng.below(5) {
+        3 => {
+            // the scope is itself a scoped variable
+            let w = format!("@x.zz_self.{}", name);
+            (w.clone(), format!("(identifier) @x {{ let @x.zz_self = @x node {} attr ({}) seen = #true }}\n", w, w), "alpha\nbeta\n")
+        }
+        4 => {
+            // ... three levels deep
+            let w = format!("@x.zz_a.zz_b.{}", name);
+            (w.clone(), format!("(identifier) @x {{ let @x.zz_a = @x let @x.zz_a.zz_b = @x node {} attr ({}) seen = #true }}\n", w, w), "alpha\nbeta\n")
+        }
         0 => {
             let w = format!("@x.{}", name);
             (w.clone(), format!("(expression_statement (identifier)? @x) {{ if some @x {{ node {} attr ({}) seen = #true }} }}\n", w, w), "alpha\nbeta\n")
